@@ -134,15 +134,17 @@ CHECKS = {
         technique="Lean 4 proof (well-founded progress argument for the scanner, all inputs) + translator + token-for-token correspondence + sanitizer/mutation search for the unmodelled stages",
         design="6/C09"),
     "C10": dict(
-        text=("Lean 4 theorems, unbounded: for the string pool, the function table and the import table (with parameter-type tables) the "
-              "loader's section parser recovers exactly what the serialiser wrote, field by field, wherever the section sits in a file "
-              "(strings_roundtrip, functions_roundtrip, imports_roundtrip, by induction over the entry list in exact little-endian widths); "
-              "re-inserting a duplicate-free pool through nvm_add_string reproduces it; serialising the reloaded import form writes the same "
-              "bytes; the exit-status logic of nano_virt --run, nano_vm and the wrapper agrees (exit_agree). The directory/assembly level "
-              "(header, section order, offsets, CRC) is not proved end to end; it is tied by correspondence: model bytes == nvm_serialize "
-              "bytes and reload == original on compiler-produced and directly built modules, and programs are run all three ways."),
-        note=TB + " Partial: whole-file deserialize(serialize m) = m is proved per section, not as one theorem; the debug section is covered by correspondence only; process exit status and wrapper linking are observed, not modelled.",
-        technique="Lean 4 proof (induction over entry lists, little-endian codec lemmas) + translator + differential correspondence + three-way execution",
+        text=("Lean 4 theorems, unbounded: file_roundtrip - for every module whose fields fit their widths (file below 4 GiB) nvm_deserialize accepts "
+              "exactly what nvm_serialize wrote (magic, version, section count, CRC over the body, directory with running offsets, every section incl. "
+              "debug entries, 'sections end at the end of the file') and rebuilds the module; file_roundtrip_exact - it is the same module when the string "
+              "pool is duplicate-free (what nvm_add_string guarantees) and imports are in loader form; stored_runs_alike - hence vm_execute on the reloaded "
+              "module is vm_execute on the original. Built from the section theorems strings_roundtrip, functions_roundtrip, imports_roundtrip (any position "
+              "in a file, exact little-endian widths, induction over entry lists), the directory-loop lemma loadSections_file and the pool lemmas "
+              "(addString_fold_nodup, addString_existing); the exit-status logic of nano_virt --run, nano_vm and the wrapper agrees (exit_agree). "
+              "Tie: model bytes == nvm_serialize bytes and reload == original on compiler-produced and directly built modules; programs (incl. hostile string "
+              "constants: trigraphs, embedded NUL) are run all three ways."),
+        note=TB + " Partial: process exit status, the wrapper's embedding of the image and its linking are observed (three-way execution), not modelled.",
+        technique="Lean 4 proof (whole-file round trip by induction over the section directory and the entry lists, little-endian codec lemmas) + translator + differential correspondence + three-way execution",
         design="6/C10"),
     "C11": dict(
         text=("Machine-checked Lean 4 theorems over the instruction table regenerated from isa.c on every run: decode(encode i ++ rest) = i "
